@@ -125,10 +125,47 @@ def generate(rng, tier, focus):
         plain = "map" not in sx.dumps(p) and "filter" not in sx.dumps(p)
         cases.append((scn(subjects=[["subject"]], conns=[["refcount", ["hot", 0]]], handles=1, script_=acts),
                       {"k": "recover-shared-hot", "want": [str(x) for x in want] if plain else None, "end": end is not None}))
+    # (h) a shared source (ref_count) that FAILS for a first, plain subscriber (who does not unsubscribe); a second subscriber - plain,
+    # or through retry / on_error_resume_next - arrives afterwards: the connection of the failed run must be gone, the source is
+    # subscribed afresh (its next attempt) and the newcomer receives that run
+    for _ in range(1200 if thorough else 200):
+        f1 = scen.script([rng.choice(ITEMS) for _ in range(rng.randrange(0, 3))], ("e", rng.choice([1, 2, 3])))
+        xs2 = [rng.choice(ITEMS) for _ in range(rng.randrange(1, 4))]
+        ok2 = scen.script(xs2, "c")
+        second = rng.choice([["conn", 0], op("retry", [3], ["conn", 0]), op("on_error_resume_next", [], ["conn", 0], ["just", 8]), op("map", [["id"]], ["conn", 0])])
+        acts = [sub(0, ["conn", 0]), sub(1, second)]
+        cases.append((scn(srcs=[src([f1, ok2, ok2], False)], conns=[["refcount", ["cold", 0]]], handles=2, script_=acts),
+                      {"k": "shared-failed-then-newcomer", "want2": [str(x) for x in xs2]}))
+    # (i) a producer that goes on after its own error, subscribed directly or through operators that add no gate of their own:
+    # the error is the subscriber's last event
+    for _ in range(1200 if thorough else 200):
+        xs = [rng.choice(ITEMS) for _ in range(rng.randrange(0, 3))]
+        s0 = scen.script(xs, ("e", rng.choice([1, 2, 3]))) + [n(rng.choice(ITEMS)) for _ in range(rng.randrange(1, 3))] + rng.choice([[], [C], [e(9)]])
+        p = rng.choice([["cold", 0], ["cold", 0], ["defer", ["cold", 0]], op("map", [["id"]], ["cold", 0])]) if False else rng.choice([["cold", 0], ["cold", 0], op("map", [["id"]], ["cold", 0]), op("tap", [0], ["cold", 0])])
+        cases.append((scn(srcs=[src([s0], False)], handles=1, script_=[sub(0, p)]), {"k": "emits-after-error", "want": [str(x) for x in xs]}))
     return cases
 
 
 def judge_impl(cases, obs):
+    import C14
+    out0 = []
+    for i, ((sc, info), ob) in enumerate(zip(cases, obs)):
+        if ob["out"] != "ok":
+            continue
+        if info.get("k") == "shared-failed-then-newcomer":
+            got = [str(x[2][1]) for x in ob["log"] if x[0] == "t1" and x[2][0] == "n"]
+            terms = [x[2][0] for x in ob["log"] if x[0] == "t1" and x[2][0] != "n"]
+            if got != info["want2"] or terms != ["c"]:
+                out0.append((i, "the subscriber that arrives after the shared source failed for an earlier one received items %s terminals %s; the source's next run emits %s then complete" % (got, terms, info["want2"])))
+        if info.get("k") == "emits-after-error":
+            evs = [x[2] for x in ob["log"] if x[0] == "t0"]
+            got = [str(x[1]) for x in evs if x[0] == "n"]
+            if not evs or evs[-1][0] != "e" or got != info["want"] or sum(1 for x in evs if x[0] != "n") != 1:
+                out0.append((i, "the producer errs after %s and goes on emitting: the subscriber received %s - the error must be its last event" % (info["want"], sx.dumps(evs))))
+    return out0 + judge_impl_rest(cases, obs)
+
+
+def judge_impl_rest(cases, obs):
     import C14
     out = C14.judge_impl(cases, obs)
     for i, ((sc, info), ob) in enumerate(zip(cases, obs)):
